@@ -15,7 +15,7 @@ From Coq Require Import String.
 From Coq Require Import List Ascii ZArith Bool Lia Permutation.
 From CGV Require Import Base.PyBase Base.PyVal Base.PyGen Base.NxGraph Gen.WriterGen Gen.SmilesGen Dialect.DialectImpl.
 From CGV Require Import Write.WriteImpl Write.WriteDefs Write.FormatBondingSpec Write.FormatStripRound Write.CoarseChain
-     Write.TreeDefs Write.TreeWrite Write.TreeTables Write.TreeRound Write.WfFacts Write.ConnFacts Write.DfsProofs Write.RingClose Write.CoarseGraph.
+     Write.TreeDefs Write.TreeWrite Write.TreeTables Write.TreeRound Write.WfFacts Write.ConnFacts Write.DfsProofs Write.RingClose Write.ContractBridge Write.CoarseGraph.
 From CGV Require Import Frag.NDict Frag.StripImpl Frag.FragText Frag.FragProofs Frag.SmilesParse Frag.SmilesSpec Frag.SmilesProofs
      Frag.Template Frag.TemplateProofs.
 Import ListNotations.
@@ -831,6 +831,19 @@ Section AtomGraph.
       unfold write_graph_full_by. rewrite Hmin. cbn [bind]. rewrite Ees. cbn [bind]. subst start. exact W1.
   Qed.
 End AtomGraph.
+
+(** ring-free = the transcript of ring edges is []: under the writer's contract for it EVERY bond of g is an edge of
+    the DFS tree, so the template's bonds (= the tree edges, [atom_tree_template_iso]) are all the bonds of g *)
+Lemma ring_free_all_tree g T start : graph_wf g = true -> min_node g = Ok start -> dfs_edges g start = Ok (redges T) ->
+  ring_contract g (dfs_tree g) [] = true ->
+  forall u v, NxGraph.has_edge g u v = true -> In (u, v) (redges T) \/ In (v, u) (redges T).
+Proof.
+  intros Hwf Hmin Hd Hrc u v He.
+  assert (Et : dfs_tree g = redges T) by (unfold dfs_tree; now rewrite Hmin, Hd).
+  destruct (ring_contract_props g [] Hwf Hrc) as (_ & _ & _ & R4). destruct (R4 u v He) as [[te [Hin Hs]]|[e [[] _]]].
+  rewrite Et in Hin. destruct te as [a b]. unfold same_edge in Hs. cbn [fst snd] in Hs.
+  apply orb_prop in Hs as [Hs|Hs]; apply andb_prop in Hs as [E1 E2]; apply Z.eqb_eq in E1, E2; subst; [now left|now right].
+Qed.
 
 (** ------------------------------------------------------------------ the hypotheses, decided *)
 Fixpoint vstrs_eqb (l : list pyval) (m : list pystr) : bool :=
